@@ -430,6 +430,21 @@ def rw_R8_closure_underscore(toks, report):
                             out[k] = T(IDENT, f"_u{cnt}")
                             cnt += 1
                             report.append(("R8", "closure parameter `_` renamed"))
+                    # R8c: a single reference-pattern parameter `|&d| E` becomes `|verif_ref_d| { let d = *verif_ref_d; E }`
+                    fs0 = _next_sig(out, i)
+                    if fs0 < j and out[fs0].kind == PUNCT and out[fs0].text == "&":
+                        idt = _next_sig(out, fs0)
+                        if idt < j and out[idt].kind == IDENT and _next_sig(out, idt) == j:
+                            dname = out[idt].text
+                            pname = f"verif_ref_{dname}"
+                            bs = _next_sig(out, j)
+                            if bs < n and out[bs].text == "{":
+                                out[bs + 1:bs + 1] = [T("raw", f" let {dname} = *{pname}; ")]
+                                out[fs0:j] = [T(IDENT, pname)]
+                                report.append(("R8c", f"closure reference-pattern parameter &{dname} bound by `let` inside the body"))
+                                n = len(out)
+                                i = fs0 + 1
+                                continue
                     # R8b: a single tuple-pattern parameter `|(a, b)| E` becomes `|verif_p| { let (a, b) = verif_p; E }`
                     fs = _next_sig(out, i)
                     if fs < j and out[fs].kind == PUNCT and out[fs].text == "(" and match_close(out, fs) == _prev_sig(out, j):
